@@ -177,7 +177,9 @@ CLAIMS = {
              "level (C14_file_*_induced_partial) assuming only that the oracle agrees with the translated primaries where they "
              "decide (induced_g) and that the turns over the body are simulated by a balanced abstract body - both checked on "
              "every run by the per-statement correspondence and by running the translated matcher on every recorded "
-             "preprocessor statement; G4, G5 stay trace-level.  Correspondence: the real statement sequence, "
+             "preprocessor statement; G4 (second guard, recognised by the translated matcher) and G5 (a declaration turn of an "
+             "untranslated primary in front of the guard) are proved in the same form (C14_file_G4/G5_induced_partial), each "
+             "with an Example in which the tokenizer model is run.  Correspondence: the real statement sequence, "
              "preprocessor state and emitted codes after every statement vs the model run inside Coq on the abstracted trace.  "
              "Search: 42 header + guard + body x base names over [a-z0-9_.] x {correct, G1..G8} x placements on the implementation.",
         ref="DESIGN.md 4.14", technique="Rocq proof over a check translated from source + per-statement state correspondence + mutation search",
@@ -281,6 +283,10 @@ CLAIMS = {
              "of the property (every limit, every n in [L-3, L+6], every generated context: kind of line incl. first/interior/last "
              "block-comment line, position in file, tabs, final newline, nesting, surrounding functions) is evaluated on the "
              "implementation on every run, and the width specification and the two line-length check models are compared with it.  "
+             "For CheckCommentLineLen (model pinned by fingerprint and limits, replayed by the driver) it is proved which lines of "
+             "a comment token are reported: line l0 + i of a block comment iff the i-th line of its value, the first behind c0 - 1 "
+             "columns of padding, is longer than 80, the lines joined by newlines being exactly the value; a // comment iff its "
+             "last character lies beyond column 80 (C03_block_comment_check_iff, C03_line_comment_check_iff).  "
              "THE 25 LINES: over a trace model of the scope bookkeeping generated from the source on every run (Scope.outer/"
              "get_outer, Context.update, CheckLineCount.run, the line test of CheckBrace, the history scan of IsBlockStart, the "
              "effect of IsBlockEnd), for EVERY well-nested function body (any nesting of braced blocks and chains of brace-less "
